@@ -500,6 +500,7 @@ pub fn run(tier: Tier) -> i32 {
     rep.cov("rule", format!("{} exchanges: {{HTTP/1.1, HTTP/2 client}} x {{prompt, slow (back-pressured) client}} x request kinds (GET, HEAD, POST with Content-Length / chunked / no declared length) x origin responses (statuses 200/204/304/404; Content-Length 0/5/40, chunked with sizes and extensions, close-delimited, bodiless; 100 and 103+100 prefixes; 3 trailing bytes) x every {} 1-cut of the origin stream (+ 2-cuts in thorough) and byte-at-a-time; distinct = (protocol, request, framing, prefix) classes", cs.len(), tier.pick("third", "")));
     rep.sample(json!({"case": cs[7]}));
     rep.assume("the origin is played by the harness on a loopback socket; the client's slow mode is a 16-byte transport buffer with 3-byte reads (HTTP/1.1) or a 7-byte stream window (HTTP/2)");
+    super::cq::c17_into(&mut rep, tier);
     rep.finish()
 }
 
